@@ -202,6 +202,12 @@ def equivalence_shapes():
                           "both fields and the written value symbolic",
                           "the two kinds of conversion exist under every spelling and act on the fields themselves",
                           ["impl/src/into.rs::ConversionsAttribute::merge_attrs"], quick=(k1, k2) != ("owned", "ref")))
+    fo = lambda a1, a2: ("#[derive(derive_more::Into, Clone, Copy)]\n#[into]\npub struct S { %s %s pub a: u8, pub b: u16, pub c: u32 }" % (a1, a2))
+    out.append(family("into_field_skip_and_conversion_order", [fo("#[into(skip)]", "#[into(ref)]"), fo("#[into(ref)]", "#[into(skip)]"), fo("#[into(ref)]", "#[into(ignore)]")],
+                      harness("        let a: u8 = kani::any();\n        let b: u16 = kani::any();\n        let c: u32 = kani::any();\n",
+                              lambda i: "let s = m%d::S { a, b, c }; let t: (u16, u32) = s.into(); let r: &u8 = (&s).into(); (t, ptr::eq(r, &s.a))" % i, 3),
+                      "all three fields symbolic", "the struct-level tuple leaves the field out and the field's own ref conversion is the field, whatever the order of "
+                      "`#[into(skip)]` and `#[into(ref)]` on it", ["impl/src/into.rs::FieldAttribute::merge_attrs"]))
     # ------------------------------------------------------------------ AsRef
     ar = lambda w: ("#[derive(derive_more::AsRef, derive_more::AsMut)]\npub struct S { #[as_ref(%s)] #[as_mut(%s)] pub a: u8, pub b: u16 }" % (w, w))
     out.append(family("as_ref_skip_field", [ar("skip"), ar("ignore")],
